@@ -2,6 +2,7 @@ package props
 
 import (
 	"fmt"
+	"go/token"
 	"sort"
 	"strings"
 
@@ -71,7 +72,8 @@ var c18BoundsExceptions = map[string]string{
 func checkC18(r *core.Run) {
 	r.Rule("R-C18-bounds", "every index, slice bound and allocation size that is derived from message payload bytes is entailed (linear arithmetic, no wrap-around) by the guards that dominate it, in every function reachable from the message dispatch with payload-derived arguments")
 	r.Rule("R-C18-locks", "in every function reachable from the message dispatch, a mutex acquired is released on every return, never re-acquired while held, and no explicit panic occurs while it is held without a deferred release")
-	r.Explain = "Static: SSA-level lock-set dataflow and linear bounds entailment over the closure of the peer message dispatch."
+	r.Rule("R-C18-nil", "the session key (aesData) exists only after an authenticated handshake, but the 'encrypted' bit of a message header is set by the peer: every dereference of the key is preceded by a nil test of it, in the same function or at every call site")
+	r.Explain = "Static: SSA-level lock-set dataflow and linear bounds entailment over the closure of the peer message dispatch; check/use rule for the optional session key."
 	r.NotCov = "Unbounded CPU/memory growth across messages, FetchMessage's cross-call buffer state machine, panics other than index/slice/alloc/explicit panic (nil map writes, type assertions), peer-penalty policy."
 	p := load(r, core.LoadOpts{})
 	if p == nil {
@@ -82,6 +84,7 @@ func checkC18(r *core.Run) {
 		r.Undecided("dispatch function (*OneConnection).Run not found")
 		return
 	}
+	c18NilKey(r, p)
 	cfg := an.BoundsConfig{
 		TaintedFields: map[string]bool{"client/network.BCmsg.pl": true},
 		// outgoing-message construction: the payload handed to it is only copied into our own send
@@ -168,4 +171,91 @@ func c18Locks(r *core.Run, p *core.Program, run *ssa.Function) {
 		}
 	}
 	r.Check(n >= 20, rule, "floor/lock-taking-functions", "-", fmt.Sprintf("%d lock-taking functions analysed", n), fmt.Sprintf("only %d lock-taking functions found in the dispatch closure (expected dozens): anchor resolution broken", n))
+}
+
+// c18NilKey: check/use rule for OneConnection.aesData (an embedded pointer that stays nil for peers that
+// did not authenticate).
+func c18NilKey(r *core.Run, p *core.Program) {
+	const rule = "R-C18-nil"
+	const field = "client/network.OneConnection.aesData"
+	guarded := func(blk *ssa.BasicBlock, e string) bool {
+		cs := an.DomConds(blk)
+		return an.HasCond(cs, "("+e+" == nil)", false) || an.HasCond(cs, "("+e+" != nil)", true)
+	}
+	type site struct {
+		fn    *ssa.Function
+		instr ssa.Instruction
+		recv  string
+	}
+	var open []site
+	n := 0
+	for _, f := range p.ModuleFuncs() {
+		if pk := core.FuncPkg(f); pk == nil || !strings.HasSuffix(pk.Path(), "client/network") {
+			continue
+		}
+		an.Instrs(f, func(i ssa.Instruction) {
+			ld, ok := i.(*ssa.UnOp)
+			if !ok || ld.Op != token.MUL {
+				return
+			}
+			fa, ok := ld.X.(*ssa.FieldAddr)
+			if !ok {
+				return
+			}
+			if fl, _ := an.FieldOf(fa); fl != field {
+				return
+			}
+			e := an.Expr(ld)
+			for _, ref := range *ld.Referrers() {
+				deref := false
+				switch u := ref.(type) {
+				case *ssa.FieldAddr:
+					deref = u.X == ssa.Value(ld)
+				case *ssa.Field:
+					deref = u.X == ssa.Value(ld)
+				case *ssa.UnOp:
+					deref = u.Op == token.MUL && u.X == ssa.Value(ld)
+				}
+				if !deref {
+					continue
+				}
+				n++
+				if !guarded(ref.Block(), e) {
+					open = append(open, site{f, ref, strings.TrimSuffix(e, ".aesData")})
+				}
+			}
+		})
+	}
+	// unguarded dereferences: every caller must have made the test on the same connection
+	var bad []string
+	done := map[*ssa.Function]bool{}
+	for _, s := range open {
+		if done[s.fn] {
+			continue
+		}
+		done[s.fn] = true
+		if s.recv != "param#0" {
+			bad = append(bad, fmt.Sprintf("%s dereferences %s.aesData at %s without a nil test", core.FuncName(s.fn), s.recv, p.Pos(an.InstrPos(s.instr))))
+			continue
+		}
+		callers := 0
+		for _, g := range p.ModuleFuncs() {
+			for _, c := range an.Calls(g, false) {
+				if an.StaticCallee(c) != s.fn {
+					continue
+				}
+				callers++
+				re := an.Expr(c.Common().Args[0])
+				if !guarded(c.(ssa.Instruction).Block(), re+".aesData") {
+					bad = append(bad, fmt.Sprintf("%s (which dereferences the key at %s without a test) is called from %s at %s without a nil test of the key", core.FuncName(s.fn), p.Pos(an.InstrPos(s.instr)), core.FuncName(g), p.Pos(an.InstrPos(c.(ssa.Instruction)))))
+				}
+			}
+		}
+		if callers == 0 {
+			// exported and unused inside the module: the dereference stands on its own
+			bad = append(bad, fmt.Sprintf("%s dereferences the key at %s without a nil test and has no checked caller", core.FuncName(s.fn), p.Pos(an.InstrPos(s.instr))))
+		}
+	}
+	sort.Strings(bad)
+	r.Check(len(bad) == 0 && n >= 4, rule, "session-key", "-", fmt.Sprintf("%d dereferences of the session key, each after a nil test (in the function or at all of its call sites)", n), strings.Join(bad, "; "))
 }
